@@ -172,24 +172,27 @@ fn pprefix(rng: &mut Rng, ctx: &mut Ctx) {
         let full = match peppi::io::peppi::read(Cursor::new(&a), Some(&peppi::io::peppi::de::Opts { skip_frames: skipf })) { Ok(g) => game_sig(&g), Err(e) => { let mut c = Case::new(format!("pprefix {}", hex(&b)), "unreadable".into()); c.fail("C02", format!("written .slpp unreadable: {}", e)); ctx.push(c); continue; } };
         let mut bad = vec![]; let mut complete_from = a.len(); let mut hung = None;
         let seed = ctx.seed as usize; let thorough = ctx.thorough;
-        let big = a.len() > 30_000; // a big archive is thinned to every third sampled offset in the quick tier (any 8 consecutive offsets keep two or three)
-        let cuts: Vec<usize> = (0..a.len()).filter(|n| thorough || ((n % 512 < 16 || n % 512 >= 504 || matches!(n % 8, 0 | 1 | 7) || (n + seed) % 13 == 0) && (!big || n % 3 == 0 || n % 512 < 2))).collect();
-        // one worker thread walks the cuts; the parent watches the clock so that a reader that blocks is observed, not waited for
+        let big = a.len() > 30_000; // a big archive is thinned: every third sampled offset in the quick tier, every fourth offset plus the block edges in the thorough tier (any 8 consecutive offsets keep two or three)
+        let cuts: Vec<usize> = (0..a.len()).filter(|n| (thorough && (!big || n % 4 == 0 || n % 512 < 16 || n % 512 >= 504)) || ((n % 512 < 16 || n % 512 >= 504 || matches!(n % 8, 0 | 1 | 7) || (n + seed) % 13 == 0) && (!big || n % 3 == 0 || n % 512 < 2))).collect();
+        // worker threads walk the cuts (one for a small archive, four contiguous quarters for a big one); the parent watches the clock so that a
+        // reader that blocks is observed, not waited for; the results are then judged in order of the cut position
         let (tx, rx) = std::sync::mpsc::channel();
-        { let a = a.clone(); let cuts = cuts.clone(); std::thread::Builder::new().stack_size(8 << 20).spawn(move || { for n in cuts {
+        let workers = if big { 4 } else { 1 }; let per = (cuts.len() + workers - 1) / workers.max(1);
+        for w in 0..workers { let a = a.clone(); let mine: Vec<usize> = cuts.iter().cloned().skip(w * per).take(per).collect(); let tx = tx.clone();
+            std::thread::Builder::new().stack_size(8 << 20).spawn(move || { for n in mine {
             // every other cut is read through a source that returns short reads (a pipe, a socket, a decompressor)
             let chunked = n % 2 == 1;
             let res = if chunked { std::panic::catch_unwind(|| peppi::io::peppi::read(Chunked::new(a[..n].to_vec(), vec![13, 1, 100], None), Some(&peppi::io::peppi::de::Opts { skip_frames: skipf })).map(|g| game_sig(&g)).map_err(|_| ())) }
                 else { std::panic::catch_unwind(|| peppi::io::peppi::read(Cursor::new(&a[..n]), Some(&peppi::io::peppi::de::Opts { skip_frames: skipf })).map(|g| game_sig(&g)).map_err(|_| ())) };
             if tx.send((n, res)).is_err() { break; } } }).unwrap(); }
-        let mut expect = cuts.iter();
-        loop {
-            let next = match expect.next() { Some(n) => *n, None => break };
-            ctx.starting(&format!("pprefix-cut {} of archive (comp {}) for {}", next, k % 3, hex(&b)));
-            match rx.recv_timeout(std::time::Duration::from_secs(20)) { Err(_) => { hung = Some(next); break; }
-                Ok((n, Err(_))) => bad.push((n, "panic")), Ok((n, Ok(Err(_)))) => { if complete_from != a.len() { bad.push((n, "error after a shorter prefix was complete")); } }
-                Ok((n, Ok(Ok(sig)))) => { if sig != full { bad.push((n, "partial game")); } else if complete_from == a.len() { complete_from = n; } } }
-        }
+        drop(tx);
+        let mut got: std::collections::BTreeMap<usize, std::thread::Result<Result<String, ()>>> = std::collections::BTreeMap::new();
+        let hb = hex(&b);
+        while got.len() < cuts.len() {
+            if got.len() % 256 == 0 { ctx.starting(&format!("pprefix-cuts ({} of {} done) of archive (comp {}) for {}", got.len(), cuts.len(), k % 3, hb)); }
+            match rx.recv_timeout(std::time::Duration::from_secs(20)) { Err(_) => { hung = cuts.iter().cloned().find(|n| !got.contains_key(n)); break; } Ok((n, r)) => { got.insert(n, r); } } }
+        for (n, r) in got { match r { Err(_) => bad.push((n, "panic")), Ok(Err(_)) => { if complete_from != a.len() { bad.push((n, "error after a shorter prefix was complete")); } }
+            Ok(Ok(sig)) => { if sig != full { bad.push((n, "partial game")); } else if complete_from == a.len() { complete_from = n; } } } }
         let mut c = Case::new(format!("pprefix {} {}", k % 3, hex(&b)), format!("len={} skip={} complete_from={} bad={:?} hung={:?}", a.len(), skipf, complete_from, &bad[..bad.len().min(4)], hung));
         if let Some(n) = hung { c.fail("C07", format!(".slpp truncated to {} of {} bytes: reader did not return within 20 s", n, a.len())); }
         for (n, what) in bad.iter().take(3) { c.fail("C07", format!(".slpp truncated to {} of {} bytes: {}", n, a.len(), what)); }
